@@ -1,6 +1,6 @@
 """What is claimed per property: jobs per tier, level, notes (single source for MANIFEST.json)."""
 
-HOOK_COMMITS = ['5cf62d3', 'acf6989']
+HOOK_COMMITS = ['5cf62d3', 'acf6989', 'c068a63']
 NOTES = ('hooks.add_only is false for one reason only: a loop contract has to stand between a loop header and its body, so each hooked '
          'loop header line "for (...) {" became "for (...)" + "EAV_VERIF_LOOP(id)" + "{" (brace moved to its own line; the `;` of one empty-bodied for loop likewise). '
          'No other existing line is changed. All counts in evidence files are measured per run. Genuine defects found and repaired are listed in '
@@ -42,8 +42,8 @@ def build_props(PROPS):
         trusted_base=TB_COMMON, technique=TECH)
     PROPS['C05'] = dict(
         level='proof', quick=ALL(['is_ipv4', 'is_ipv6', 'is_ipaddr'] + E_LIT), thorough=[],
-        level_text='is_ipv4 (loop contract) and is_ipv6 (loop of provably <= 17 iterations, fully unwound with the unwinding assertion as obligation) are proved against IPv4 / RFC 4291 automata: YES => accepted by the automaton; conversely RFC 5321 shapes with non-zero first octet => YES. The e-mail functions are proved to accept a literal only as "[" addr "]" with nothing after, v4 by is_ipv4, v6 only after the tag "IPv6:" (or untagged when the first byte is a digit), flags by family.',
-        level_note='strspn models A5, strchr/strrchr A3, tag comparison oracle A6; precondition of is_ipv4/is_ipv6: the closing bracket follows (true at every call site). The converse for IPv6 is stated for inputs the scan reads to the end.',
+        level_text='is_ipv4 (loop contract, every length) is proved against the IPv4 automaton: YES => accepted by the automaton; conversely dotted quads with non-zero first octet => YES. is_ipv6 is BOUNDED: for inputs of at most 45 bytes its loop is fully unwound (18 iterations, unwinding assertion discharged) and it is shown against the RFC 4291 automaton (YES => accepted; RFC 5321 shapes => YES; dotted-quad tail handed to is_ipv4 from the start of its group); longer IPv6 texts are not covered and the job is not counted as proved. The e-mail functions are proved to accept a literal only as "[" addr "]" with nothing after, v4 by is_ipv4, v6 only after the tag "IPv6:" (or untagged when the first byte is a digit), flags by family.',
+        level_note='BOUNDED PART: is_ipv6 only for address texts of at most 45 bytes (an RFC 4291 address without superfluous leading zeros in a dotted-quad tail has at most 45). strspn models A5, strchr/strrchr A3, tag comparison oracle A6; precondition of is_ipv4/is_ipv6: the closing bracket follows (true at every call site). The converse for IPv6 is stated for inputs the scan reads to the end.',
         trusted_base=TB_COMMON, technique=TECH)
     PROPS['C07'] = dict(
         level='proof', quick=ALL(['is_tld', 'tld_table', 'email_822_host', 'is_utf8_domain']),
@@ -64,8 +64,8 @@ def build_props(PROPS):
         level_note='The IDNA half of the property is the behaviour of libidn2, carried as assumed contract A7; this check decides the libeav half only.',
         trusted_base=TB_COMMON, technique=TECH)
     PROPS['C11'] = dict(
-        level='proof', quick=ALL(['tld_table']), thorough=ALL(['is_tld']),
-        level_text='The shipped table is evaluated exactly by CBMC against rows regenerated from data/punycode.csv on every run: same row count, every entry a CSV row with the class rule of the property, no row twice (bijection), lower-case LDH A-labels, length = strlen+1, sentinel.',
+        level='proof', quick=ALL(['tld_table', 'is_tld']), thorough=[],
+        level_text='is_tld is proved to answer with the class of the first entry equal to the whole label (job is_tld, as in C07), and the shipped table is evaluated exactly by CBMC against rows regenerated from data/punycode.csv on every run: same row count, every entry a CSV row with the class rule of the property, no row twice (bijection), lower-case LDH A-labels, length = strlen+1, sentinel.',
         level_note='The second sentence of the property (re-running util/*.pl reproduces the shipped files) is outside this technique: Perl generators, no verifier for them, Text::CSV not installed. tools/csv2spec.py (Python csv module) is trusted to read the CSV.',
         trusted_base=['tools/csv2spec.py (CSV reader + the three-line class rule)'],
         technique='CBMC constant evaluation of the real src/auto_tld.c against a specification table generated from data/punycode.csv')
@@ -103,7 +103,7 @@ def build_props(PROPS):
         level='proof',
         quick=ALL(SAFE) + ALL(['is_6531_local', 'utf8_decode_next', 'is_tld', 'is_ipaddr', 'is_utf8_domain', 'eav_is_email', 'eav_free', 'email_822_host', 'email_822_literal'], 'safety')
               + ALL(['eav_init', 'eav_result_free', 'lifecycle']),
-        thorough=ALL(['is_ipv6', 'is_ipv6_len', 'is_special_domain_A', 'is_special_domain_B', 'email_5321_host', 'email_5322_host', 'email_6531_host', 'email_5321_literal', 'email_5322_literal', 'email_6531_literal', 'is_utf8_domain@idn', 'is_utf8_domain@idnkit'], 'safety')
+        thorough=ALL(['is_ipv6', 'is_special_domain_A', 'is_special_domain_B', 'email_5321_host', 'email_5322_host', 'email_6531_host', 'email_5321_literal', 'email_5322_literal', 'email_6531_literal', 'is_utf8_domain@idn', 'is_utf8_domain@idnkit'], 'safety')
                  + ALL(['lifecycle@idn', 'lifecycle@idnkit', 'eav_init@idn', 'eav_init@idnkit']),
         level_text='Union of the safety obligations CBMC instruments on the real code under contracts that describe every NUL-terminated input of every length: pointer validity of every access incl. look-behind cp[-1] and look-ahead cp[1]/cp[2]/end[-1] (the input object is exactly is_fresh(s, len+1)), pointer / signed overflow, shifts, division; frames (assigns: nothing but the result object / the eav_t / ghost state); a decreases clause bounded by the input length on every loop (linear termination); abort() unreachable; eav_init establishes every field later calls read; no leak / double free on a whole API history (lifecycle job) and in is_utf8_domain for every IDN outcome. The scanner jobs used here are safety-only variants whose invariants do not mention the functional specification.',
         level_note='quick tier covers the scanners, decoder, is_tld, is_ipaddr, is_utf8_domain, the eav_* API and one e-mail function; is_ipv6, is_special_domain and the other e-mail functions / back ends are in the thorough tier (their functional jobs carry the same safety obligations and run in the quick tiers of C05 / C09 / C01). Not covered: stack depth, real libidn2 internals (A7), allocation failure (A2).',
@@ -114,15 +114,15 @@ def build_props(PROPS):
         level_note='Composition of the two halves is by the shared cut predicate (asserted in A, assumed in B). strncasecmp is an oracle (A6): that a comparison over strlen+1 bytes is ASCII-case-insensitive equality of whole labels is glibc semantics. Slow: job B needs about 25 minutes and 18 GB.',
         trusted_base=TB_COMMON, technique=TECH)
     PROPS['C12'] = dict(
-        level='proof', quick=ALL(['lemma_local', 'is_5321_local', 'is_822_local', 'email_822_host', 'email_5321_host', 'email_5322_host']),
-        thorough=ALL(['is_5322_local', 'is_6531_local', 'email_822_literal', 'email_5321_literal', 'email_5322_literal']),
+        level='proof', quick=ALL(['lemma_local', 'is_5321_local', 'is_822_local', 'is_5322_local', 'is_6531_local', 'email_822_host', 'email_5321_host', 'email_5322_host']),
+        thorough=ALL(['email_822_literal', 'email_5321_literal', 'email_5322_literal']),
         level_text='Each scanner is proved equal to its specification automaton (C02/C03 jobs); the cross-mode statements are then lemmas about the automata, proved loop-free over a symbolic (state, character) pair: without DQUOTE and backslash the four automata move in lock step through the unquoted states; every live transition of the 5321 automaton is a transition of the 822 automaton; the domain halves of the three ASCII e-mail functions are proved against one and the same contract text.',
         level_note='The step from "each code equals its automaton" + "the automata agree" to "the codes agree" is a two-line meta-argument. Equality of the *error code* across modes (not only of the decision) is covered by the per-code postconditions only as far as they pin the code (C15), not as a cross-mode obligation.',
         trusted_base=TB_COMMON, technique=TECH)
     PROPS['C14'] = dict(
         level='other',
         quick=ALL(['static_scan']) + ALL(SAFE + ['utf8_decode_next', 'is_tld', 'is_utf8_domain', 'eav_is_email', 'eav_setup', 'eav_free'], 're:assigns|frees|is assignable'),
-        thorough=ALL(['is_6531_local', 'is_ipv6_len', 'email_822_host', 'email_6531_host', 'is_special_domain_A'], 're:assigns|frees|is assignable'),
+        thorough=ALL(['is_6531_local', 'email_822_host', 'email_6531_host', 'is_special_domain_A'], 're:assigns|frees|is assignable'),
         level_text='This technique has no model of interleavings. What is proved is the absence of shared mutable state, from which race freedom and sequential equivalence follow by the standard disjoint-footprint argument (stated, not mechanised): every library function is checked by DFCC against an assigns clause that contains only objects reachable from its arguments, fresh allocations and ghost state (a write to a file-scope cache or counter fails an assigns obligation), and a scan of the goto symbol tables of all library translation units (three back ends) requires every static-lifetime object to be const (DFCC exempts function-local statics).',
         level_note='The quantifier over schedules is not explored. Assumed: the IDN library and libc functions used are thread-safe.',
         explanation='frame (assigns) obligations of the library functions discharged by CBMC/DFCC + symbol-table scan for mutable static-lifetime objects; schedule quantifier by meta-argument only',
